@@ -238,6 +238,8 @@ func buildPhases() []phase {
 	}
 	// capacity limits of the bounded tables the model lists (round5.go)
 	ps = append(ps, phase{"capacity", capacityPhase})
+	// the factory on every 16-bit type code against the regenerated registry (round5.go)
+	ps = append(ps, phase{"registry", registryPhase})
 	// containers and record lists
 	ps = append(ps, phase{"ZipPack.records", func(x *runCtx) { x.batches(x.base/4, func() job { return zipJob(x.g) }) }})
 	ps = append(ps, phase{"LogSinkZipPack.records", func(x *runCtx) {
